@@ -195,6 +195,7 @@ def chainStep (d : Drv) (line : String) : Drv × String :=
       | none => bad
     | _, _, _ => bad
   | ["cverify"] => (d, showVerify (verifyChain C d.rawReg d.raw))
+  | ["cverify_old"] => (d, showVerify (verifyChainOld C d.rawReg d.raw))
   | ["cstate"] => (d, showState d.rawReg d.raw)
   | ["csave"] => ({ d with saved := d.raw }, "ok")
   | ["crestore"] => ({ d with raw := d.saved }, "ok")
